@@ -481,7 +481,7 @@ func cwxVariants(tier string) []vsched.Variant {
 
 func init() {
 	vsched.Register(&vsched.Harness{
-		Name: "chanwriter", Props: []string{"C13"}, Kind: "sched",
+		Name: "chanwriter", Props: []string{"C13", "C07"}, Kind: "sched",
 		Doc: "perChannelWriter with a recording flushFn; configs {MaxSize 2, MaxDelay d, both, latest+MaxSize 3, latest+MaxDelay, latest+both}; " +
 			"seq: every sequence of depth 5 (thorough 6) over {pub x/a, pub x/b, join x, leave x (thorough only), pub y/a, delWriter(x,false|true), Close(false|true), +d/2, +d}; " +
 			"par4/par5: producers [pub a, join(, pub a)] and [pub b, pub a] on one channel, end event {none, delWriter(false), Close(false), Close(true)}, timers may fire first (horizon 2d), deviation bound 2 (thorough: 3 for the size-only configs and, with 4 items, for every timer config racing delWriter); " +
